@@ -761,8 +761,8 @@ func gen(g *core.G) {
 		}
 	}
 	if g.Thorough() {
-		// 2 threads × 3 steps and 3 threads × 2 steps over a smaller alphabet, schedules with at most 3 switches
-		small := []gstep{alpha[0], alpha[1], alpha[2], alpha[3], alpha[4]}
+		// 2 threads × 3 steps and 3 threads × 2 steps over a four-step alphabet, schedules with at most 2 switches
+		small := []gstep{alpha[0], alpha[1], alpha[2], alpha[3]}
 		var p3 [][]gstep
 		for _, x := range small {
 			for _, y := range small {
@@ -776,7 +776,7 @@ func gen(g *core.G) {
 				if j < i {
 					continue
 				}
-				bounded([]int{progSlots(p), progSlots(q)}, 3, func(s []int) {
+				bounded([]int{progSlots(p), progSlots(q)}, 2, func(s []int) {
 					g.Emit("sched " + chain2 + " (threads " + progStr(p) + " " + progStr(q) + ") " + schedStr(s))
 				})
 			}
@@ -793,7 +793,7 @@ func gen(g *core.G) {
 					if j < i || k < j {
 						continue
 					}
-					bounded([]int{progSlots(p), progSlots(q), progSlots(r)}, 3, func(s []int) {
+					bounded([]int{progSlots(p), progSlots(q), progSlots(r)}, 2, func(s []int) {
 						g.Emit("sched " + chain2 + " (threads " + progStr(p) + " " + progStr(q) + " " + progStr(r) + ") " + schedStr(s))
 					})
 				}
